@@ -10,7 +10,7 @@ import z3
 
 from . import source, values as V
 from .values import (Opt, Ptr, Opaque, Ref, StrV, BytesV, FuncV, ModV, HList, HDict, HRec, HSet, HRecList, ElemRef,
-                     is_sym, is_int_like,
+                     HPointMap, PMEntry, is_sym, is_int_like,
                      is_bool_like, to_z3, parse_type)
 from . import contracts as C
 
@@ -969,6 +969,10 @@ class Engine:
       if isinstance(o, HRecList):
         i = self.th._norm_index(self, st, o.length, idx, node)
         return ElemRef(base, i)
+      if isinstance(o, HPointMap):
+        if not (isinstance(idx, tuple) and len(idx) == 2):
+          raise Unsupported("point map indexed by a non-pair")
+        return PMEntry(base, idx)
     if isinstance(base, BytesV):
       return self.th.bytes_index(self, st, base, idx, node)
     if isinstance(base, Ref):
@@ -1415,6 +1419,9 @@ class Engine:
         return v
       if isinstance(o, HSet):
         self.th.havoc_set(self, st, o, name)
+        return v
+      if isinstance(o, HPointMap):
+        o.term = z3.Const(V.fresh_name(name + ".pointmap"), V.RefSort)
         return v
       if isinstance(o, HRecList):
         for k, ft in o.fields.items():
